@@ -285,7 +285,7 @@ def run_property(pid, tier, seed=0):
     for r in kres['results'][:6]:
         samples.append(dict(kani_harness=r['harness'], config=r['config'], mode=r['mode'], verdict=r['verdict'], checks=r['checks'], inputs=r['inputs']))
     ev = dict(property_id=pid, tier=tier, seed=seed, level=level, wall_s=round(wall, 2), violations=reported,
-              coverage=dict(obligations=obligations + kres['checks'], discharged=discharged + sum((r['checks'] or 0) for r in kres['results'] if r['verdict'] in ('pass',)),
+              coverage=dict(obligations=(obligations if own_units else kres['checks']), discharged=(discharged if own_units else sum((r['checks'] or 0) for r in kres['results'] if r['verdict'] in ('pass',))),
                             verus_obligations=obligations, verus_discharged=discharged,
                             evaluations=len(functions) + len(kres['results']), distinct_nontrivial=nproved + kpass,
                             rule='one case = one contracted function (per digit type and build mode) whose every obligation Verus discharged, or one Kani harness (full symbolic input domain of one configuration) that passed with its reachability cover satisfied',
